@@ -171,6 +171,16 @@ package tchannel
 //@ iface net.Addr.String() (s string)
 //@   modifies nothing
 //@   ensures s == addrStr(self)
+// peerAddrOf(c) / localAddrOf(c): the text of the far / near end's address of a
+// socket (they name the results of net.Conn.RemoteAddr / LocalAddr).
+//@ ghost func peerAddrOf(c net.Conn) string
+//@ ghost func localAddrOf(c net.Conn) string
+//@ iface net.Conn.RemoteAddr() (a net.Addr)
+//@   modifies nothing
+//@   ensures a != nil && addrStr(a) == peerAddrOf(self)
+//@ iface net.Conn.LocalAddr() (a net.Addr)
+//@   modifies nothing
+//@   ensures a != nil && addrStr(a) == localAddrOf(self)
 
 //@ func parseRemotePeer(p initParams, remoteAddr net.Addr) (pi PeerInfo, pa peerAddressComponents, err error)
 //@   requires remoteAddr != nil
@@ -237,7 +247,8 @@ package tchannel
 //@        rxHas(c, "host_port") && rxHas(c, "process_name")
 //@ pred PeerFromWire(c net.Conn, remotePeer PeerInfo) := remotePeer.ProcessName == rxParam(c, "process_name") &&
 //@        (remotePeer.IsEphemeral <==> isEphemeralHostPort(rxParam(c, "host_port"))) &&
-//@        (!isEphemeralHostPort(rxParam(c, "host_port")) ==> remotePeer.HostPort == rxParam(c, "host_port"))
+//@        (!isEphemeralHostPort(rxParam(c, "host_port")) ==> remotePeer.HostPort == rxParam(c, "host_port")) &&
+//@        (isEphemeralHostPort(rxParam(c, "host_port")) ==> remotePeer.HostPort == peerAddrOf(c))
 
 // Registries: the channel's connection table, the root peer list (the one
 // addConnectionToPeer uses) and the connection lists of every peer in it.
